@@ -309,7 +309,7 @@ def library_data(ctx):
     for prop, kind in (("density", "interextra_property"), ("viscosity", "interextra_property"),
                        ("heat_capacity", "interextra_property"), ("molar_mass", "constant_property"),
                        ("der_compressibility", "constant_property"), ("compressibility", "linear_property")):
-        ctx.decided("call_lib/%s" % prop, "schema", "properties['%s'] = %s('%s')" % (prop, kind, prop) in src,
+        ctx.structural("call_lib/%s" % prop, "schema", "properties['%s'] = %s('%s')" % (prop, kind, prop) in src,
                     witness="call_lib does not build %s with %s" % (prop, kind))
 
 
